@@ -15,7 +15,7 @@ typedef Value<char> V;
 #define PAT 0
 #endif
 #ifndef MKIND
-#define MKIND 0   /* other member: 0 symbolic 64-bit number, 2 the same plus a further member "n" in object 0 ONLY (heterogeneous records: nothing of an earlier record may show up in a later one), 1 concrete one-unit string 'p'+i (keeps a mis-grouped result's shape concrete, so a key-position defect is decided instead of timing out) */
+#define MKIND 0   /* other member: 0 symbolic 64-bit number, 3 the LAST object has "x" instead of the grouping key (GroupBy must return false), 2 the same as 0 plus a further member "n" in object 0 ONLY (heterogeneous records: nothing of an earlier record may show up in a later one), 1 concrete one-unit string 'p'+i (keeps a mis-grouped result's shape concrete, so a key-position defect is decided instead of timing out) */
 #endif
 #ifndef KIND
 #define KIND 0     /* 0: one-unit string keys, 1: boolean keys, 2: null / string mix, 3: one-digit unsigned keys */
@@ -70,7 +70,13 @@ extern "C" void h_group() {
     V &arr = *new (&raw[0]) V;
     for (unsigned i = 0; i < NOBJ; i++) {
         V o;
-#if MKIND == 0 || MKIND == 2
+#if MKIND == 3   /* the LAST record lacks the grouping key (it has "x" instead): GroupBy must fail */
+        // (members are concrete one-unit strings: if a broken GroupBy took one of them for the key, its text must not be a symbolic number - no verdict then)
+        char ms3 = char('p' + i), xs3 = 'q';
+        if (i == NOBJ - 1) { if ((ORD >> i) & 1) { o["ym"] = V{&ms3, SizeT{1}}; o["x"] = V{&xs3, SizeT{1}}; } else { o["x"] = V{&xs3, SizeT{1}}; o["ym"] = V{&ms3, SizeT{1}}; } }
+        else if ((ORD >> i) & 1) { o["ym"] = V{&ms3, SizeT{1}}; set_key(o, k[i]); }
+        else                { set_key(o, k[i]); o["ym"] = V{&ms3, SizeT{1}}; }
+#elif MKIND == 0 || MKIND == 2
         if ((ORD >> i) & 1) { o["ym"] = SizeT64(m[i]); set_key(o, k[i]); }
         else                { set_key(o, k[i]); o["ym"] = SizeT64(m[i]); }
 #if MKIND == 2
@@ -86,6 +92,12 @@ extern "C" void h_group() {
     vf_assert(arr.IsArray() && arr.Size() == NOBJ, 1);
     V &g = *new (&raw[sizeof(V)]) V;
     bool ok = arr.GroupBy(g, "y", SizeT{1});
+#if MKIND == 3
+    vf_assert(!ok, 12);                                              // a record without the key: no partition
+    { const V *src = arr.GetValue(SizeT(NOBJ - 1)); vf_assert(src != nullptr && src->IsObject() && src->Size() == 2, 13); }   // source untouched
+    vf_witness();
+    return;
+#endif
     vf_assert(ok && g.IsObject(), 2);
     // reference partition: group of object i = index of the first object with the same key text
     char txt[NOBJ][8]; unsigned tl[NOBJ]; unsigned first[NOBJ]; unsigned ngroups = 0; unsigned gid[NOBJ];
